@@ -204,17 +204,17 @@ static void case_table(Rng& rng, uint64_t index)
 		double unit = U.Integrate(x1, x2);
 		double rev = V.Integrate(x2, x1);
 		(void) U.Integrate(x2, x1);
-		require("integrate-antisymmetric-bit-exact", same_bits(rev, -got) || (got == 0 && rev == 0), [&] { return detail(J().d("I(x1,x2)", got).d("I(x2,x1)", rev)); });
 		double lo = std::min(x1, x2), hi = std::max(x1, x2);
 		double sg = (x1 <= x2) ? 1.0 : -1.0;
 		if(lo == hi)
 		{
-			require("integrate-equal-limits-zero", got == 0.0, [&] { return detail(J().d("got", got)); });
+			require("integrate-equal-limits-zero", got == 0.0 && rev == 0.0, [&] { return detail(J().d("got", got).d("reversed", rev)); });
 		}
 		else
 		{
 			PieceSum ref = reference_integral(T, R, P, lo, hi);
 			double tol	 = K_VAL * EPS * ref.tol_scale;
+			judge("integrate-antisymmetric", std::fabs(rev + got), tol, [&] { return detail(J().d("I(x1,x2)", got).d("I(x2,x1)", rev)); });
 			judge("integrate-is-integral-of-interpolate", (double) fabsl((ld) got - sg * ref.integral), tol, [&] { return detail(J().d("got", got).d("gauss_legendre_over_Interpolate", (double) (sg * ref.integral))); });
 			if(!in_zone)
 			{
@@ -257,7 +257,7 @@ static void case_table(Rng& rng, uint64_t index)
 			else
 				umin = U.Local_Minimum(lo, hi), umax = U.Local_Maximum(lo, hi);
 			double emin = (P < 0) ? P * umax : P * umin, emax = (P < 0) ? P * umin : P * umax;
-			require("local-extrema-scale-with-prefactor-exactly", same_bits(lmin, emin) && same_bits(lmax, emax), [&] { return detail(J().d("Local_Minimum", lmin).d("Local_Maximum", lmax).d("unit_min", umin).d("unit_max", umax)); });
+			require("local-extrema-scale-with-prefactor", near_ulps(lmin, emin, 4) && near_ulps(lmax, emax, 4), [&] { return detail(J().d("Local_Minimum", lmin).d("Local_Maximum", lmax).d("unit_min", umin).d("unit_max", umax)); });
 			// curve values at the limits, the knots inside and on a scan
 			double vmin = INFINITY, vmax = -INFINITY, S = 0;
 			std::vector<double> pts = {lo, hi};
@@ -332,9 +332,9 @@ static void case_table(Rng& rng, uint64_t index)
 		double gmin = V.Global_Minimum(), gmax = V.Global_Maximum();
 		double ymin = *std::min_element(T.Y.begin(), T.Y.end()), ymax = *std::max_element(T.Y.begin(), T.Y.end());
 		double emin = (P < 0) ? P * ymax : P * ymin, emax = (P < 0) ? P * ymin : P * ymax;
-		require("global-extrema-are-prefactor-times-table-extrema", same_bits(gmin, emin) && same_bits(gmax, emax), [&] { return J().d("prefactor", P).d("Global_Minimum", gmin).d("Global_Maximum", gmax).d("table_min", ymin).d("table_max", ymax); });
+		require("global-extrema-are-prefactor-times-table-extrema", near_ulps(gmin, emin, 4) && near_ulps(gmax, emax, 4), [&] { return J().d("prefactor", P).d("Global_Minimum", gmin).d("Global_Maximum", gmax).d("table_min", ymin).d("table_max", ymax); });
 		double umin = U.Global_Minimum(), umax = U.Global_Maximum();
-		require("global-extrema-unit-prefactor", same_bits(umin, ymin) && same_bits(umax, ymax), [&] { return J().d("Global_Minimum", umin).d("Global_Maximum", umax).d("table_min", ymin).d("table_max", ymax); });
+		require("global-extrema-unit-prefactor", near_ulps(umin, ymin, 4) && near_ulps(umax, ymax, 4), [&] { return J().d("Global_Minimum", umin).d("Global_Maximum", umax).d("table_min", ymin).d("table_max", ymax); });
 		int nscan = std::max(200, 4 * N);
 		for(int m = 0; m < nscan; m++)
 		{
@@ -388,7 +388,7 @@ static void case_grid(Rng& rng, uint64_t index)
 		}
 		double gmin = V.Global_Minimum(), gmax = V.Global_Maximum();
 		double emin = (P < 0) ? P * fmax : P * fmin, emax = (P < 0) ? P * fmin : P * fmax;
-		require("2d-global-extrema-are-prefactor-times-table-extrema", same_bits(gmin, emin) && same_bits(gmax, emax), [&] { return J().d("prefactor", P).d("Global_Minimum", gmin).d("Global_Maximum", gmax).d("table_min", fmin).d("table_max", fmax); });
+		require("2d-global-extrema-are-prefactor-times-table-extrema", near_ulps(gmin, emin, 4) && near_ulps(gmax, emax, 4), [&] { return J().d("prefactor", P).d("Global_Minimum", gmin).d("Global_Maximum", gmax).d("table_min", fmin).d("table_max", fmax); });
 		double S = std::fabs(P) * std::max(std::fabs(fmin), std::fabs(fmax));
 		for(int m = 0; m < 300; m++)
 		{
